@@ -541,9 +541,24 @@ class AutoEvaluator(Evaluator):
 
     erase_T = False          # matrices as commuting symbols: `.T` is the matrix itself
 
+    loop_once = False        # `for x in it:` - evaluate the body once for a generic iteration (x a symbol): per-iteration stores and calls are recorded
+
     def stmt(self, st):
         if isinstance(st, ast.Expr) and isinstance(st.value, ast.Call) and not self.done:
             self.ev(st.value)          # a call statement: recorded in self.calls (and followed when it is in the inline table)
+            return
+        if isinstance(st, ast.For) and self.loop_once and not self.done:
+            self.ev(st.iter)
+
+            def bind(t):
+                if isinstance(t, ast.Name):
+                    if t.id not in self.pinned:
+                        self.env[t.id] = F.sym(t.id)
+                elif isinstance(t, (ast.Tuple, ast.List)):
+                    for e in t.elts:
+                        bind(e)
+            bind(st.target)
+            self.run(st.body)
             return
         return super().stmt(st)
 
